@@ -532,6 +532,12 @@ def rule_shadow2(ctx: Ctx) -> RuleResult:
                           f"`{nm}` is an attribute of {base_name} but not in blacklist_words: a sample with the key \"{nm}\" gives a "
                           f"class that does not load (pydantic: NameError: Field name \"{nm}\" shadows a BaseModel attribute)",
                           f.node.lineno)
+    # names the frameworks' generated methods use for themselves (attrs: `def __init__(self, <fields>)`)
+    for nm, why in (("self", "attrs generates `def __init__(self, <fields>)`: a field of that name is a duplicate argument"),):
+        rr.instances += 1
+        ok = nm in bl
+        rr.ob(BASE, "<module>", f"reserved name `{nm}`", "a key that sanitises to a parameter name of a generated method gets a suffix",
+              DISCHARGED if ok else VIOLATED, "black-listed" if ok else f"`{nm}` is not in blacklist_words: {why}", 1)
     if checked == 0:
         rr.instances += 1
         rr.ob(BASE, "<module>", "framework base classes", "attribute names of the framework base classes are black-listed", ALLOWED,
